@@ -117,6 +117,8 @@ func looseOperands(c *SilentCase, in Inst) string {
 			ok = findImm(3)
 		case "mem":
 			ok = findMem(16, 3, 0, 0)
+		case "mem-e":
+			ok = findMem(32, 6, 0, 0)
 		case "mem8":
 			ok = findMem(16, 6, 4, 8)
 		case "mem32":
